@@ -13,6 +13,13 @@ def run(res, tier, seed, replay):
                         "round-trip oracle only (testing, not proof)",
                         "iostream getline buffering (TMCG_MAX_*_CHARS truncation) is not modelled"]
     vpl.proof_stage(res, LIBS)
+    if tier == "thorough":
+        # designated place for the independent re-check of ALL compiled libraries of the development
+        okc, summary, nmods = vpl.coqchk_all()
+        res.cov["coqchk"] = dict(modules=nmods, ok=okc, summary=" ".join(summary.split())[:1500])
+        if not okc:
+            res.violation("coqchk", "coqchk does not accept the compiled development: " + summary[-800:],
+                          dict(kind="coqchk", output=summary[-3000:]), found_input=False)
     exe = vpl.build_harness("c11")
     drv = vpl.build_driver("C11")
     seeds = [seed] if tier == "quick" else [seed, seed + 1000, seed + 2000]
